@@ -1,7 +1,7 @@
 """C07 - Channel data arrives complete, in order, once, with EOF last."""
 import asyncio
 
-from .. import chancorr, chansim, memwire, sshutil
+from .. import chancorr, chansim, memwire, sshutil, streams_e2e
 
 IMPORTS = 'From AV Require Import Base.Prelude Model.Channel Model.MultiChannel Corr.C07Corr.'
 
@@ -16,6 +16,11 @@ async def e2e_case(ctx, rng, k):
     pktsize = rng.choice([1, 2, 3, 5, 64, 32768])
     encoding = rng.choice([None, None, 'utf-8', 'utf-16', 'utf-8'])
     chunkmode = rng.choice(['one', 'rand', 'whole', 'coalesce'])
+    # a third of the sessions re-key after very few bytes, so that bursts written during an exchange are deferred
+    # and flushing them starts the next exchange (the data must still arrive complete and in order)
+    rekey = rng.choice([None, None, 300, 2000, 20000])
+    if rekey and chunkmode == 'one':
+        chunkmode = 'rand'
     got = {}
 
     class SSess(asyncssh.SSHServerSession):
@@ -75,7 +80,8 @@ async def e2e_case(ctx, rng, k):
         wire.hold = False
 
     tun, wire, acc, conn = await memwire.connected_pair(
-        Srv, srv_kw={'window': window, 'max_pktsize': pktsize, 'encoding': encoding}, on_wire=on_wire)
+        Srv, srv_kw={'window': window, 'max_pktsize': pktsize, 'encoding': encoding},
+        cli_kw=({'rekey_bytes': rekey} if rekey else {}), on_wire=on_wire)
     try:
         chans = []
         wire.hold = True
@@ -94,6 +100,8 @@ async def e2e_case(ctx, rng, k):
                 continue
             size = rng.choice([0, 1, 2, window, window + 1, 3 * window + 1, 50]) if window < 5000 else rng.choice([0, 1, 100, 70000])
             size = min(size, 200000)
+            if rekey:
+                size = min(size, 12 * rekey)       # a dozen exchanges per write at most (run time)
             if encoding:
                 data = ''.join(rng.choice(alphabet) for _ in range(min(size, 3000)))
             else:
@@ -136,12 +144,13 @@ async def e2e_case(ctx, rng, k):
             data = empty.join(x[1] for x in s.d if x[0] == 'D')
             want = empty.join(written[i])
             cfg = {'kind': 'e2e', 'seedcase': k, 'window': window, 'pktsize': pktsize, 'encoding': encoding,
-                   'chunkmode': chunkmode, 'nchan': nchan, 'channel': i,
+                   'chunkmode': chunkmode, 'nchan': nchan, 'channel': i, 'rekey_bytes': rekey,
                    'written_len': len(want), 'delivered_len': len(data)}
             ctx.note_case(('e2e', k, i, window, pktsize, encoding, chunkmode, len(want)), nontrivial=len(want) > window)
             if data != want:
                 ctx.failing_input(f'channel {i} of {nchan}: delivered {len(data)} units, written {len(want)} '
-                                  f'(window={window} pktsize={pktsize} encoding={encoding} chunking={chunkmode})', cfg)
+                                  f'(window={window} pktsize={pktsize} encoding={encoding} chunking={chunkmode} '
+                                  f'rekey_bytes={rekey})', cfg)
             has_eof = ('E',) in s.d
             if has_eof != (i in eof):
                 ctx.failing_input(f'channel {i}: eof delivered={has_eof} but signalled={i in eof}', cfg)
@@ -149,6 +158,7 @@ async def e2e_case(ctx, rng, k):
                 ctx.failing_input(f'channel {i}: data delivered after EOF', cfg)
         ctx.count('e2e.enc.%s' % encoding)
         ctx.count('e2e.chunk.%s' % chunkmode)
+        ctx.count('e2e.rekey.%s' % ('yes' if rekey else 'no'))
     finally:
         conn.abort()
         wire.cut_link()
@@ -159,7 +169,8 @@ def run(ctx):
     ctx.cov['rule'] = ('op sequences over {write(size 0..2*window+3, data type), eof, close, pause, resume(pause again '
                        'after k), deliver-forward, deliver-back} on a real channel over a manually scheduled in-memory '
                        'wire, windows 1..16, packet sizes 1..32768, both directions; plus auto-pumped multi-channel '
-                       'sessions with random re-chunking and text encodings. non-trivial = some data was delivered and '
+                       'sessions with random re-chunking, text encodings and re-keying after very few bytes; stream-API readers with '
+                       'break/signal/window-change requests in the middle of the data. non-trivial = some data was delivered and '
                        'the reader paused/resumed at least once (model cases) or more than one window was written (e2e)')
     ctx.cov['trusted_base'] += [
         'one direction of one channel is modelled (Model/Channel.v); N channels are independent copies sharing wire '
@@ -174,6 +185,20 @@ def run(ctx):
     ne = 400 if ctx.tier == 'thorough' else 50
     for k in range(ne):
         sshutil.run(e2e_case(ctx, ctx.rng, k), timeout=300)
+    # the same clause through the stream API: reads interleaved with break / signal / window-change requests
+    ns = 300 if ctx.tier == 'thorough' else 40
+    fails = 0
+    for k in range(ns):
+        if fails >= 3:
+            break
+        bad, cfg = sshutil.run(streams_e2e.events_case(ctx.rng), timeout=300)
+        ctx.note_case(('stream_events', k, cfg['lag'], cfg['readn'], cfg['window'], tuple(cfg['steps'])),
+                      nontrivial=any(isinstance(x, str) for x in cfg['steps']))
+        ctx.count('e2e.stream_events')
+        if bad:
+            fails += 1
+            ctx.failing_input('stream API: ' + bad + f' (read size {cfg["readn"]}, reader lag {cfg["lag"]} turns, '
+                              f'window {cfg["window"]}, client steps {cfg["steps"]})', cfg)
     if ctx.cov['distribution'].get('op.R', 0) < 20 or ctx.cov['distribution'].get('op.P', 0) < 20:
         ctx.broke('vacuity:pause-resume', 'too few pause/resume operations generated')
 
@@ -181,6 +206,15 @@ def run(ctx):
 def replay(rp):
     from .. import core
     core.setup_paths()
+    if rp.get('kind') == 'stream_events':
+        import random
+        rng = random.Random(1)
+        for _ in range(80):
+            bad, cfg = sshutil.run(streams_e2e.events_case(rng), timeout=300)
+            if bad:
+                print('still fails:', bad, cfg)
+                return 1
+        return 0
     if rp.get('kind') != 'channel':
         print('replay needs the full stage; run ./check C07')
         return 2
